@@ -1,9 +1,6 @@
-// Package chain is a differential-testing harness for pegnetd: it fabricates
-// a synthetic Factom chain, serves it through a fake factomd JSON-RPC API and
-// drives the real, unmodified pegnetd sync code against it.
+// Package chain is a differential-testing harness for pegnetd: it fabricates a
+// synthetic Factom chain (chain.go), serves it through a fake factomd JSON-RPC
+// API (server.go), drives the real, unmodified pegnetd sync code against it
+// (node.go), dumps the resulting sqlite state canonically (dump.go) and
+// generates valid OPR / SPR / FAT-2 entries (gen.go).
 package chain
-
-import (
-	_ "github.com/mattn/go-sqlite3"
-	_ "github.com/pegnet/pegnetd/node"
-)
